@@ -76,6 +76,9 @@ func (c *Ctx) CorrParseReqs(reqs []string, space string) []string {
 	model := c.Driver.Map(reqs)
 	real := c.Worker.Map(reqs)
 	for i := range reqs {
+		if real[i] == "SKIPPED" {
+			continue
+		}
 		c.Ev.Traces++
 		if c.JudgeParse {
 			c.judgeParse(reqs[i], real[i])
